@@ -54,8 +54,10 @@ OUTSIDE = [
 
 warm_sqlite()
 
-NMAX = B(4, 5)      # appends in the interleaving obligations
+NMAX = B(4, 5)      # appends in the interleaving obligations (memory)
+NSQ = B(3, 5)       # appends in the interleaving obligation (sqlite + differential)
 SMAX = B(3, 4)      # events in the subscription obligations
+SSQ = B(2, 4)       # events in the sqlite / default-polling subscription obligations
 GMAX = B(1, 2)      # writer gap / consumer delay range
 
 
@@ -103,10 +105,10 @@ def ob_mem_append_query(n: int, s0: bool, s1: bool, s2: bool, s3: bool, s4: bool
 
 @obligation(quick=90, thorough=300, partitions_quick=["not s0", "s0"], partitions_thorough=["not s0 and not s1", "not s0 and s1", "s0 and not s1", "s0 and s1"],
             what="sqlite (tmp file): same as ob_mem_append_query, and query results equal the memory store's on the same script",
-            bounds={"appends": "0..NMAX", "runs": 2, "k": "-1..n"})
+            bounds={"appends": "0..NSQ", "runs": 2, "k": "-1..n"})
 def ob_sqlite_append_query_diff(n: int, s0: bool, s1: bool, s2: bool, s3: bool, s4: bool, k: int) -> bool:
     """
-    pre: 0 <= n <= NMAX and -1 <= k <= n
+    pre: 0 <= n <= NSQ and -1 <= k <= n
     post: _
     """
     sel = [s0, s1, s2, s3, s4]
@@ -194,8 +196,145 @@ def ob_mem_subscribe(n: int, nb: int, tpos: int, k: int, g1: int, g2: int, g3: i
     pre: 1 <= n <= SMAX and 0 <= nb <= n and 0 <= tpos < n and -1 <= k < tpos
     pre: 0 <= g1 <= GMAX and 0 <= g2 <= GMAX and 0 <= g3 <= GMAX and 0 <= slow <= GMAX
     pre: (n > 1 and nb <= 1 or g1 == 0) and (n > 2 and nb <= 2 or g2 == 0) and (n > 3 and nb <= 3 or g3 == 0)
+    pre: not (k >= nb)
     post: _
     """
     st = MemoryWorkflowStore()
     got = _subscribe_scenario(st.subscribe_events, st, n, nb, tpos, k, g1, g2, g3, slow, sub_first)
     return got == _sub_expected(tpos, k)
+
+
+@obligation(quick=150, thorough=500,
+            partitions_quick=[f"sub_first == {b} and other == {o}" for b in (True, False) for o in (True, False)],
+            partitions_thorough=[f"n == {n} and sub_first == {b} and slow == {s} and other == {o}" for n in (1, 2, 3, 4) for b in (True, False) for s in (0, 1, 2) for o in (True, False)],
+            what="sqlite subscribe_events(after=k), notify wake-up (same store object writes) and poll-timeout wake-up (another store object on the same file writes): exactly seq k+1..t once each, then stops",
+            bounds=dict(_SUB_BOUNDS, **{"events": "1..SSQ", "wake-up path": "notify / poll timeout", "poll_interval": 1}))
+def ob_sqlite_subscribe(n: int, nb: int, tpos: int, k: int, g1: int, g2: int, g3: int, slow: int, sub_first: bool, other: bool) -> bool:
+    """
+    pre: 1 <= n <= SSQ and 0 <= nb <= n and 0 <= tpos < n and -1 <= k < tpos
+    pre: 0 <= g1 <= GMAX and 0 <= g2 <= GMAX and 0 <= g3 <= GMAX and 0 <= slow <= GMAX
+    pre: (n > 1 and nb <= 1 or g1 == 0) and (n > 2 and nb <= 2 or g2 == 0) and (n > 3 and nb <= 3 or g3 == 0)
+    post: _
+    """
+    with TmpDir() as d:
+        path = os.path.join(d, "s.db")
+        st = SqliteWorkflowStore(path, poll_interval=1)
+        wr = SqliteWorkflowStore(path, poll_interval=1) if other else st
+        got = _subscribe_scenario(st.subscribe_events, wr, n, nb, tpos, k, g1, g2, g3, slow, sub_first, kconc=True)
+    return got == _sub_expected(tpos, k)
+
+
+@obligation(quick=120, thorough=400, partitions_quick=[f"sub_first == {b} and slow == {s}" for b in (True, False) for s in (0, 1)],
+            partitions_thorough=[f"n == {n} and sub_first == {b} and slow == {s}" for n in (1, 2, 3, 4) for b in (True, False) for s in (0, 1, 2)],
+            what="default polling AbstractWorkflowStore.subscribe_events (over the memory store's real query_events): exactly seq k+1..t once each, then stops",
+            bounds=dict(_SUB_BOUNDS, **{"events": "1..SSQ", "poll_interval": 1}))
+def ob_default_poll_subscribe(n: int, nb: int, tpos: int, k: int, g1: int, g2: int, g3: int, slow: int, sub_first: bool) -> bool:
+    """
+    pre: 1 <= n <= SSQ and 0 <= nb <= n and 0 <= tpos < n and -1 <= k < tpos
+    pre: 0 <= g1 <= GMAX and 0 <= g2 <= GMAX and 0 <= g3 <= GMAX and 0 <= slow <= GMAX
+    pre: (n > 1 and nb <= 1 or g1 == 0) and (n > 2 and nb <= 2 or g2 == 0) and (n > 3 and nb <= 3 or g3 == 0)
+    post: _
+    """
+    st = MemoryWorkflowStore()
+    st.poll_interval = 1
+
+    def sub(run_id, after):
+        return AbstractWorkflowStore.subscribe_events(st, run_id, after)
+
+    got = _subscribe_scenario(sub, st, n, nb, tpos, k, g1, g2, g3, slow, sub_first)
+    return got == _sub_expected(tpos, k)
+
+
+# ----------------------------------------------------------------------------------------------- HTTP cursor resolution
+class HTTPException(Exception):
+    """stands in for starlette.exceptions.HTTPException in the lifted namespace: a bare exception class, no behaviour"""
+
+    def __init__(self, detail=None, status_code=None):
+        super().__init__(detail)
+        self.detail = detail
+        self.status_code = status_code
+
+
+def _lift_resolve_event_stream():
+    """Cut ``_WorkflowAPI._resolve_event_stream`` out of the CURRENT _api.py (the module needs starlette) and compile it
+    into a namespace holding only the names it references."""
+    import textwrap
+    from typing import AsyncGenerator
+    from vlib import paths
+
+    path = os.path.join(paths.PKG, "llama-agents-server", "src", "llama_agents", "server", "_api.py")
+    src = open(path).read()
+    tree = ast.parse(src)
+    for node in tree.body:
+        if isinstance(node, ast.ClassDef) and node.name == "_WorkflowAPI":
+            for f in node.body:
+                if isinstance(f, ast.AsyncFunctionDef) and f.name == "_resolve_event_stream":
+                    seg = textwrap.dedent("\n".join(src.split("\n")[f.lineno - 1 : f.end_lineno]))
+                    ns = {
+                        "HandlerQuery": HandlerQuery, "HTTPException": HTTPException, "is_terminal_status": is_terminal_status,
+                        "AbstractWorkflowStore": AbstractWorkflowStore, "InternalDispatchEvent": InternalDispatchEvent,
+                        "AsyncGenerator": AsyncGenerator, "EventEnvelopeWithMetadata": EventEnvelopeWithMetadata,
+                    }
+                    exec(compile("from __future__ import annotations\n" + seg, path, "exec"), ns)
+                    return ns["_resolve_event_stream"]
+    raise vlib.boot.HarnessError("_WorkflowAPI._resolve_event_stream not found in _api.py")
+
+
+_RESOLVE = _lift_resolve_event_stream()
+
+
+class _Svc:
+    def __init__(self, store):
+        self.store = store
+
+
+class _Api:
+    def __init__(self, store):
+        self._service = _Svc(store)
+
+
+@obligation(quick=90, thorough=200, partitions_quick=["now", "not now"], partitions_thorough=["now", "not now"],
+            what="_resolve_event_stream (lifted): 'now' = current max sequence; None iff nothing above the cursor AND run complete; else the generator "
+                 "yields exactly the sequences above the cursor (incl. a terminal event appended later) and ends after the terminal one; 404 for unknown handler / no run",
+            bounds={"stored events": "0..3", "cursor": "now | -1..n-1 (a recorded event)", "handler status": "4", "last stored event terminal": "bool", "handler": "known / unknown / no run_id"})
+def ob_resolve_event_stream(n: int, last_term: bool, sti: int, now: bool, a: int, hmode: int) -> bool:
+    """
+    pre: 0 <= n <= 3 and 0 <= sti <= 3 and -1 <= a < n and 0 <= hmode <= 2 and (n > 0 or not last_term)
+    pre: (not now) or a == -1
+    post: _
+    """
+    st = MemoryWorkflowStore()
+    n = pick_int(n, 0, 3)
+    status = "running" if sti == 0 else ("completed" if sti == 1 else ("failed" if sti == 2 else "cancelled"))
+    drive(st.update(PersistentHandler(handler_id="h0", workflow_name="w", status=status, run_id=(None if hmode == 2 else "a"))))
+    for i in range(n):
+        drive(st.append_event("a", env_term(i % 3) if (last_term and i == n - 1) else env_plain(i)))
+    api = _Api(st)
+    try:
+        gen = drive(_RESOLVE(api, "zz" if hmode == 1 else "h0", after_sequence=(None if now else a), include_internal=True, include_qualified_name=True))
+    except HTTPException as e:
+        return hmode != 0 and e.status_code == 404
+    if hmode != 0:
+        return False
+    eff = (n - 1) if now else a
+    remaining = [j for j in range(n) if j > eff]
+    complete = (sti != 0) or last_term
+    if not remaining and complete:
+        return gen is None
+    if gen is None:
+        return False
+    want = list(remaining)
+    has_term = last_term and (n - 1) in remaining
+
+    async def main():
+        got = []
+        if not has_term:
+            await st.append_event("a", env_term(0))   # published after the cursor was resolved
+        async for seq, envelope in gen:
+            got.append(seq)
+        return got
+
+    if not has_term:
+        want = want + [n]
+    got = MiniLoop().run_until_complete(main())
+    return got == want
